@@ -53,6 +53,17 @@ def resample [Add K] [Sub K] [Mul K] [Div K] [DecidableEq K] (px : Option (K × 
 /-- `mask[np.nonzero(mask)] = 1; mask.astype(int)` -/
 def binarise [Zero K] [DecidableEq K] (x : K) : Int := if x = 0 then 0 else 1
 
+/-- does the regenerated coordinate of output sample `(i, j)` lie inside the input array `[0, n0−1] × [0, n1−1]`? -/
+def insideB [Add K] [Sub K] [Mul K] [Div K] [LE K] [DecidableLE K] (ofInt : Int → K) (two : K) (S0 S1 n0 n1 : Int) (s : K) (i j : Int) : Bool :=
+  decide (ofInt 0 ≤ gridRow ofInt two S0 S1 n0 n1 s i) && decide (gridRow ofInt two S0 S1 n0 n1 s i ≤ ofInt (n0 - 1)) &&
+  decide (ofInt 0 ≤ gridCol ofInt two S0 S1 n0 n1 s j) && decide (gridCol ofInt two S0 S1 n0 n1 s j ≤ ofInt (n1 - 1))
+
+/-- one mask layer resampled as `Plane.rescale` does it (`order=0, mode='constant'`, then binarised): the value of the source pixel
+nearest (`rnd`) to the regenerated coordinate when that lies inside the input array, 0 on the rim outside it -/
+def nearestMask [Zero K] [DecidableEq K] [Add K] [Sub K] [Mul K] [Div K] [LE K] [DecidableLE K] (ofInt : Int → K) (two : K) (rnd : K → Int)
+    (S0 S1 n0 n1 : Int) (s : K) (m : Int → Int → K) (i j : Int) : Int :=
+  if insideB ofInt two S0 S1 n0 n1 s i j then binarise (m (rnd (gridRow ofInt two S0 S1 n0 n1 s i)) (rnd (gridCol ofInt two S0 S1 n0 n1 s j))) else 0
+
 /-- `util.rescale(img, scale, mask=None, unitary=False)` at output sample `(i, j)`:
 the spline interpolant of `img` at the mapped coordinates, times the (linearly interpolated, thresholded) support mask.
 `interp f y x`: value of the order-3 interpolant of `f` at `(y, x)`; `interp1`: the order-1 interpolant (for the mask). -/
